@@ -149,6 +149,19 @@ Definition limit_fin (n bound : N) (l : list row) : list row :=
   let m := N.min n bound in
   if m <? N.of_nat (List.length l1) then firstn (N.to_nat m) l1 else l1.
 
+(* ---- the two pipelines that are observed ------------------------------------------------------ *)
+(* results.By(k, d, asc).Sort(rows), then Statement.PostProcess *)
+Definition run_sort (k d : Z) (asc : bool) (l : list row) : res (list row) :=
+  match by_ k d asc with Ok less => Ok (sort_rows less l) | _ => Panic end.
+Definition run_pp (k d : Z) (asc : bool) (n : N) (l : list row) : res (list row) :=
+  match run_sort k d asc l with Ok s => Ok (limit_pp n s) | _ => Panic end.
+(* finalizeResult: nothing happens for an empty row map (By is not even called) *)
+Definition run_fin (k d : Z) (asc : bool) (n bound : N) (l : list row) : res (list row) :=
+  match l with
+  | [] => Ok []
+  | _ => match run_sort k d asc l with Ok s => Ok (limit_fin n bound s) | _ => Panic end
+  end.
+
 (* ---- the identity of a row for ordering purposes: attributes and labels, the timestamp as an instant *)
 Definition lkey (l : labels) : Z * (string * (string * string)) :=
   (inst (l_ts l), (l_host l, (l_hostid l, l_iface l))).
